@@ -68,13 +68,19 @@ def Routine (m : Msg) : Prop :=
   (m.mtype == mLogon) = false ∧ (m.mtype == mSequenceReset) = false ∧ (m.mtype == mLogout) = false ∧
   (m.mtype == mResendRequest) = false
 
+/-- message types `_process_message` does not handle BEFORE the sequence check -/
+def Headable (m : Msg) : Prop :=
+  (m.mtype == mLogon) = false ∧ (m.mtype == mSequenceReset) = false ∧ (m.mtype == mLogout) = false
+
+theorem Routine.headable {m : Msg} (h : Routine m) : Headable m := ⟨h.1, h.2.1, h.2.2.1⟩
+
 /-- first part of `_process_message` in a logged-on state (≥ 8: ACTIVE, RESENDREQ_AWAITING,
 RESENDREQ_HANDLING, RECV_SEQNUM_TOO_HIGH, …) for the expected number: no early return,
 `is_valid_msg_num = True` -/
 theorem processHead_on (env : Env) (c : Conn) (m : Msg) (h8 : 8 ≤ c.state) (h : InSeq c m)
-    (hr : Routine m) : processHead env m c = ⟨.ok (some (true, c.sess.nextIn)), c, []⟩ := by
+    (hr : Headable m) : processHead env m c = ⟨.ok (some (true, c.sess.nextIn)), c, []⟩ := by
   obtain ⟨v, hv, hn⟩ := h.seqv
-  obtain ⟨r1, r2, r3, _⟩ := hr
+  obtain ⟨r1, r2, r3⟩ := hr
   have g6 : 6 ≤ c.state := by omega
   have n6 : ¬ (c.state = 6) := by omega
   have n7 : ¬ (c.state = 7) := by omega
@@ -123,7 +129,7 @@ theorem finalizeMessage_inseq (env : Env) (c : Conn) (m : Msg) (h : InSeq c m)
 /-- `_process_message` for a valid in-sequence routine frame in a logged-on state = integrity check (passes), head
 (passes), the swallowed dispatch, then `_finalize_message` on whatever the dispatch left behind -/
 theorem processMessage_on (sr : Msg → Bool) (env : Env) (c c1 : Conn) (m : Msg) (e1 : List Effect)
-    (h8 : 8 ≤ c.state) (h : InSeq c m) (hr : Routine m)
+    (h8 : 8 ≤ c.state) (h : InSeq c m) (hr : Headable m)
     (hd : swallow () (processDispatch env sr m true c.sess.nextIn) c = ⟨.ok (), c1, e1⟩) :
     processMessage env sr m c = pre e1 (finalizeMessage env m c1) := by
   unfold processMessage
@@ -142,7 +148,7 @@ theorem run_of_pre {x y : M Unit} {c c1 : Conn} {e1 : List Effect} (h : x c = pr
   rcases o with ⟨r | a, c2, e2⟩ <;> simp [pre]
 
 theorem recv_on (sr : Msg → Bool) (env : Env) (c c1 : Conn) (m : Msg) (e1 : List Effect)
-    (h8 : 8 ≤ c.state) (h : InSeq c m) (hr : Routine m)
+    (h8 : 8 ≤ c.state) (h : InSeq c m) (hr : Headable m)
     (hd : swallow () (processDispatch env sr m true c.sess.nextIn) c = ⟨.ok (), c1, e1⟩) :
     recv sr env c m =
       (((finalizeMessage env m).run c1).1, e1 ++ ((finalizeMessage env m).run c1).2) :=
@@ -159,8 +165,8 @@ theorem heartbeat_routine {m : Msg} (hm : m.mtype = mHeartbeat) : Routine m := b
 
 /-- `_process_heartbeat`, all four branches -/
 theorem dispatch_heartbeat (env : Env) (sr : Msg → Bool) (c : Conn) (m : Msg) (n : Int)
-    (hm : m.mtype = mHeartbeat) :
-    processDispatch env sr m true n c =
+    (hm : m.mtype = mHeartbeat) (valid : Bool := true) :
+    processDispatch env sr m valid n c =
       match c.testReqId, m.get? tTestReqID with
       | none, _ => ⟨.ok (), c, []⟩
       | some _, none => ⟨.ok (), c, []⟩
@@ -242,8 +248,8 @@ theorem testrequest_routine {m : Msg} (hm : m.mtype = mTestRequest) : Routine m 
   simp [Routine, hm, mTestRequest, mLogon, mSequenceReset, mLogout, mResendRequest]
 
 theorem dispatch_testrequest (env : Env) (sr : Msg → Bool) (c : Conn) (m : Msg) (n : Int)
-    (hm : m.mtype = mTestRequest) :
-    processDispatch env sr m true n c = sendMsg env (echoMsg m) c := by
+    (hm : m.mtype = mTestRequest) (valid : Bool := true) :
+    processDispatch env sr m valid n c = sendMsg env (echoMsg m) c := by
   unfold processDispatch
   simp only [hm, mHeartbeat, mResendRequest, mSequenceReset, mLogon, mTestRequest]
   simp only [String.reduceBEq, Bool.false_eq_true, if_false, if_true]
